@@ -73,6 +73,9 @@ func TestCheck(t *testing.T) {
 			{raftkvs.Config{NumServers: 2, NumClients: 1, MaxTerm: 4, MaxCommitIndex: 3, FIFO: true, Budgeted: true, Requests: put, ExploreFail: true, MaxNodeFail: 1}, 1, "elect", 2},
 			{raftkvs.Config{NumServers: 3, NumClients: 1, MaxTerm: 4, MaxCommitIndex: 3, FIFO: true, Budgeted: true, Requests: put}, 1, "commit-lagging", 3},
 			{raftkvs.Config{NumServers: 3, NumClients: 1, MaxTerm: 4, MaxCommitIndex: 4, FIFO: true, Budgeted: true, Requests: put2}, 1, "commit2-lagging", 3},
+			// Figure 8 of the Raft paper: an old-term entry sits on a majority under a newer-term leader
+			{raftkvs.Config{NumServers: 3, NumClients: 2, MaxTerm: 7, MaxCommitIndex: 4, FIFO: true, Budgeted: true, DevKinds: []string{"election"},
+				Requests: [][]raftkvs.Req{{{Type: "put", Key: "k", Value: "x"}}, {{Type: "put", Key: "k", Value: "y"}}}}, 1, "figure8", 2},
 		}
 		if env.Thorough() {
 			cfgs = append(cfgs,
